@@ -14,6 +14,7 @@ import Postcard.Model.Crc
 import Postcard.Model.CrcDe
 import Postcard.Model.Accumulator
 import Postcard.Model.SexpMTy
+import Postcard.Model.EnumAt
 import Postcard.Props.C12Exact
 import Postcard.Model.Fixint
 import Postcard.Model.DeFlavor
@@ -103,6 +104,28 @@ def storageRun (storage : String) (cap : Nat) (fill : Byte)
   | "hvec" => run HVec ⟨cap, []⟩ (fun _ => [])
   | "alloc" => run AllocVec [] (fun _ => [])
   | _ => "bad-op"
+
+/-- `flavseq`: drive a serialising flavour through its PUBLIC API with an arbitrary sequence of
+`try_push` / `try_extend` calls, stopping the comparison at the first failing call (what a flavour does
+after it has reported an error is constrained by no property beyond "no panic, nothing outside the
+buffer", which the harness observes). -/
+def flavSteps {σ} (F : Flavor σ (List Byte)) : σ → List (Bool × List Byte) → String → String
+  | s, [], acc =>
+    match (F.finalize s).2 with
+    | .ok out => acc ++ " fin=ok " ++ hexOfBytes out
+    | .error e => acc ++ " fin=err " ++ e.name
+  | s, (isPush, bs) :: rest, acc =>
+    let r := if isPush then F.tryPush s (bs.headD 0) else F.tryExtend s bs
+    match r with
+    | (s', none) => flavSteps F s' rest (acc ++ " s:ok")
+    | (_, some _) => acc ++ " s:err posterr"
+
+def stepOfSexp : Sexp → Option (Bool × List Byte)
+  | .atom a =>
+    if a.startsWith "p:" then (bytesOfHex ("x" ++ (a.drop 2).toString)).bind (fun bs => if bs.length = 1 then some (true, bs) else none)
+    else if a.startsWith "e:" then (bytesOfHex ("x" ++ (a.drop 2).toString)).map (fun bs => (false, bs))
+    else none
+  | _ => none
 
 def accEvents (n : Nat) (t : Ty) (chunks : List (List Byte)) : List String :=
   -- `T::deserialize` on the accumulated frame: from_bytes_cobs::<T>(&mut buf[..idx])
@@ -315,6 +338,16 @@ def handle (line : String) : String :=
       | some cap, some m =>
         storageRun storage cap 0xA5 (fun F s0 _ => serAnswer (cobsOfBytes F s0 m).2)
       | _, _ => "bad-op"
+    | "flavseq", (.atom storage :: .atom cap :: .atom framing :: steps) =>
+      match cap.toNat?, steps.mapM stepOfSexp with
+      | some cap, some steps =>
+        storageRun storage cap 0xA5 (fun F s0 _ =>
+          if framing == "cobs" then
+            match Cobs.tryNew F s0 with
+            | (_, some e) => "err " ++ e.name
+            | (st1, none) => flavSteps (Cobs F) st1 steps "ok"
+          else flavSteps F s0 steps "ok")
+      | _, _ => "bad-op"
     | "cobsspec", [.atom h] =>
       match bytesOfHex h with
       | some m => "ok " ++ hexOfBytes (Spec.cobsEncode m ++ [0])
@@ -437,6 +470,30 @@ def handle (line : String) : String :=
             | .ok (v, st') => go k st'.next (acc ++ " | ok " ++ valToStr v)
         go count (IOReaderSt.new stream fa scratch) "rio"
       | _, _, _, _ => "bad-op"
+    | "deseq", (.atom _adapter :: .atom fault :: .atom scratch :: .atom _sched :: .atom h :: tys) =>
+      -- ONE Deserializer::from_flavor(IOReader) used for several values in a row; compared up to the first
+      -- error (afterwards only safety is observed by the harness)
+      match scratch.toNat?, tys.mapM tyOfSexp, bytesOfHex h with
+      | some scratch, some tys, some stream =>
+        let fa : Option Nat := if fault == "none" then none else fault.toNat?
+        let rec goSeq (ts : List Ty) (st : IOReaderSt) (acc : String) : String :=
+          match ts with
+          | [] => acc ++ s!" | fin delivered={st.delivered} scratchleft={st.scratchCap - st.scratchUsed}"
+          | t :: ts =>
+            match fromIo t st with
+            | .error e => acc ++ " | err " ++ e.name ++ " | posterr"
+            | .ok (v, st') => goSeq ts st' (acc ++ " | ok " ++ valToStr v)
+        goSeq tys (IOReaderSt.new stream fa scratch) "deseq"
+      | _, _, _ => "bad-op"
+    | "rtsp", [.atom idx, vt, v] =>
+      -- an enum with ONE accepted discriminant anywhere in the u32 range (Model/EnumAt.lean)
+      match idx.toNat?, tyOfSexp vt, valOfSexp v with
+      | some idx, some vt, some v => if hasTyAt idx vt v then "ok " ++ hexOfBytes (enc v) else "ill-typed"
+      | _, _, _ => "bad-op"
+    | "desp", [.atom idx, vt, .atom h] =>
+      match idx.toNat?, tyOfSexp vt, bytesOfHex h with
+      | some idx, some vt, some bs => deAnswer (decEnumAt idx vt bs)
+      | _, _, _ => "bad-op"
     | "realrt", [.atom _idx, c, .atom _h] =>
       -- a concrete Rust value decoded by the REAL Deserialize impl and re-encoded: must be enc of its call tree
       match ctOfSexp c with
